@@ -8,9 +8,13 @@
    version, non-empty records (one version, no ignore configuration; the opening
    reconciliation is not assumed to be the identity), by way of: a path present on the
    left and not reported removed by the reference diff is present on the right
-   (Proofs/RefDiffPresent.v) and compare computes the reference diff (C11).  Not yet
-   proved: the same for the Apply step (needs the frame lemmas for prune), and validity of
-   the object after Apply. *)
+   (Proofs/RefDiffPresent.v) and compare computes the reference diff (C11).  The Apply step
+   (C06_apply_keeps_the_state_consistent, Proofs/ApplyInv.v, setting and side conditions of
+   C01_apply_takes_effect): the resulting object is well formed and valid, every path of
+   every new record designates a node of it, and the records stay well formed, single-
+   version and non-empty.  Not proved: that the side conditions of C01 are themselves
+   preserved along a history (they are evaluated on every state the implementation
+   produces, see the tags of the C01 evidence). *)
 From Coq Require Import List ZArith String Bool.
 From SMD Require Import Model.Value Model.Order Model.PathElem Model.PathSet Model.Schema Model.Walk
   Model.FieldSet Model.Compare Model.Matcher Model.Updater Spec.PathsAsSets Spec.Examples
@@ -139,4 +143,93 @@ Theorem C06_update_step_example_computed :
   update_op ex_config ui_live ui_new "v1" ui_mf "m2" = UOk (ui_new, ui_mf').
 Proof. exact ui_update_computed. Qed.
 Print Assumptions C06_update_step_example_computed.
+
+(* ---- the Apply step keeps object and ownership consistent ---- *)
+From SMD Require Import Model.Remove Model.Merge Model.Reconcile Spec.Agree
+  Proofs.FieldSetBase Proofs.FieldSetPaths Proofs.FieldSetWf Proofs.FieldSetLaws Proofs.RemoveAbsent Proofs.RemoveWf
+  Proofs.ResolveLaws Proofs.MergeLaws Proofs.MergeAgree Proofs.RemoveFrame Proofs.EnLaws Proofs.NodeSet
+  Proofs.KeyFields Proofs.VeqbResolve Proofs.SetCheckers Proofs.ApplyEffect Proofs.ApplyInv.
+Theorem C06_apply_keeps_the_state_consistent :
+  forall (c : config) (R : typeref -> Prop) (ver : string) (live cfg : string * value)
+           (mf : managed) (mgr : string) (force : bool) (o : option tv) 
+           (mf' : managed),
+         no_ignore c ->
+         conv_id c ->
+         schema_ok (schema_of c ver) R ->
+         family_refs (schema_of c ver) R ->
+         lists_pure (schema_of c ver) R ->
+         R (tr_of c ver) ->
+         keys_plain (schema_of c ver) R ->
+         fst live = ver ->
+         fst cfg = ver ->
+         single_version ver mf ->
+         mf_ok mf ->
+         records_current c ver mf ->
+         (forall r : mrec,
+          mf_get mgr mf = Some r -> applier_record_ok (schema_of c ver) (tr_of c ver) (mr_set r)) ->
+         (forall (m : string) (r : mrec),
+          m <> mgr ->
+          mf_get m mf = Some r ->
+          owns_live_keys (schema_of c ver) (tr_of c ver) (snd live) (mr_set r)) ->
+         wf_value (snd live) = true ->
+         wf_value (snd cfg) = true ->
+         conforms (schema_of c ver) (tr_of c ver) true (snd live) = true ->
+         conforms (schema_of c ver) (tr_of c ver) false (snd cfg) = true ->
+         plain (snd cfg) = true ->
+         granular (schema_of c ver) (tr_of c ver) (snd cfg) ->
+         owned_present (schema_of c ver) (tr_of c ver) (snd live) mf ->
+         apply_op c live cfg ver mf mgr force = UOk (o, mf') ->
+         let res := match o with
+                    | Some t => snd t
+                    | None => snd live
+                    end in
+         wf_value res = true /\
+         conforms (schema_of c ver) (tr_of c ver) true res = true /\
+         owned_present (schema_of c ver) (tr_of c ver) res mf' /\
+         mf_ok mf' /\
+         single_version ver mf' /\
+         (forall (m : string) (r : mrec), mf_get m mf' = Some r -> ps_empty (mr_set r) = false).
+Proof. exact apply_preserves_owned_present. Qed.
+Print Assumptions C06_apply_keeps_the_state_consistent.
+
+Theorem C06_apply_step_example :
+  wf_value ai_result = true /\
+         conforms ex_schema ex_rt true ai_result = true /\
+         owned_present ex_schema ex_rt ai_result ai_mf' /\
+         mf_ok ai_mf' /\
+         single_version "v1" ai_mf' /\
+         (forall (m : string) (r : mrec), mf_get m ai_mf' = Some r -> ps_empty (mr_set r) = false).
+Proof. exact apply_preserves_owned_present_example. Qed.
+Print Assumptions C06_apply_step_example.
+
+Theorem C06_apply_step_example_is_not_degenerate :
+  (forall r : mrec,
+          mf_get "a" ai_mf = Some r ->
+          ps_has (PEField "items" :: PEKey (("name", VStr "x") :: nil) :: nil) (mr_set r) = true /\
+          ps_has (PEField "mm" :: PEField "j" :: nil) (mr_set r) = true) /\
+         present ex_schema ex_rt ai_live
+           (PEField "items" :: PEKey (("name", VStr "x") :: nil) :: nil) = true /\
+         present ex_schema ex_rt ai_live (PEField "mm" :: PEField "j" :: nil) = true /\
+         present ex_schema ex_rt ai_result
+           (PEField "items" :: PEKey (("name", VStr "x") :: nil) :: nil) = false /\
+         present ex_schema ex_rt ai_result (PEField "mm" :: PEField "j" :: nil) = false /\
+         (forall r : mrec,
+          mf_get "a" ai_mf' = Some r ->
+          ps_has (PEField "items" :: PEKey (("name", VStr "x") :: nil) :: nil) (mr_set r) = false /\
+          ps_has (PEField "mm" :: PEField "j" :: nil) (mr_set r) = false /\
+          ps_has (PEField "items" :: PEKey (("name", VStr "z") :: nil) :: nil) (mr_set r) = true /\
+          ps_has (PEField "mm" :: PEField "k" :: nil) (mr_set r) = true) /\
+         (forall r : mrec,
+          mf_get "b" ai_mf = Some r ->
+          ps_has (PEField "mm" :: PEField "k" :: nil) (mr_set r) = true) /\
+         (forall r : mrec,
+          mf_get "b" ai_mf' = Some r ->
+          ps_has (PEField "mm" :: PEField "k" :: nil) (mr_set r) = false /\
+          ps_has (PEField "items" :: PEKey (("name", VStr "y") :: nil) :: PEField "vv" :: nil)
+            (mr_set r) = true) /\
+         present ex_schema ex_rt ai_result
+           (PEField "items" :: PEKey (("name", VStr "y") :: nil) :: PEField "vv" :: nil) = true /\
+         veqb ai_live ai_result = false.
+Proof. exact ai_example_facts. Qed.
+Print Assumptions C06_apply_step_example_is_not_degenerate.
 
